@@ -622,6 +622,11 @@ class PortalRun:
             loop.run_handle(h)
             if rec.next_action is not None:
                 rec.next_action = None
+                if rec.task.done() or rec.execs == 0:
+                    # the wrapper ended, or suspended, without entering the callable: the step is repeated by the
+                    # harness (the task's next handle) and the monitors say what the outcome means for the property
+                    self.flags.add("wrapper_suspended_or_ended_before_callable")
+                    return 4
                 self.harness_errors.append(f"step of {k} did not reach the callable")
                 return 98
             return 4
@@ -721,6 +726,21 @@ class PortalRun:
     # ---- property monitors on the implementation's history (independent of the model) -----------------------
     def _monitor_step(self, code, k, a, b, c, d, res, before_int):
         rec = self.recs.get(k) if code in (ISSUE, LAND, STEP, REAP, FCANCEL, CLAND) else None
+        # -- every call the portal accepted is run exactly once and its caller is answered: once the call's task has
+        #    ended, the callable has been invoked and the future (for start_task also the status future) is resolved
+        for r in self.recs.values():
+            if r.task is not None and r.task.done() and not getattr(r, "_unanswered_flagged", False):
+                problems = []
+                if r.execs == 0:
+                    problems.append("its callable ran 0 times")
+                if r.fut is not None and not r.fut.done():
+                    problems.append("its caller was never answered (the returned future is still pending)")
+                if r.kind == KSTART and r.status_fut is not None and not r.status_fut.done():
+                    problems.append("start_task() never returns (the task_status future is still pending)")
+                if problems:
+                    r._unanswered_flagged = True
+                    self.mon.append(f"call {r.k} was accepted by the portal (its task was created and has ended) but "
+                                    + " and ".join(problems))
         # -- F39: a cancelled future whose task has ended must be reported to waiters (wait / as_completed), whoever
         #    cancelled it
         for r in self.recs.values():
@@ -950,6 +970,9 @@ class PortalRun:
                 if rec.thread.is_alive():
                     self.mon.append(f"caller thread of call {rec.k} is left hanging (phase {self.phase(rec)})")
                     continue
+            if rec.task is not None and rec.execs == 0 and not getattr(rec, "_unanswered_flagged", False):
+                self.mon.append(f"call {rec.k} was accepted by the portal (its task was created) but its callable ran 0 times"
+                                + ("" if rec.fut is None or rec.fut.done() else " and its caller was never answered"))
             if rec.task is not None:
                 if rec.execs != 1 and self.host_state == "left":
                     self.mon.append(f"landed call {rec.k} ran its callable {rec.execs} times by the time the context was left")
@@ -998,7 +1021,7 @@ def run_script(ncalls: int, flat_ops: list[int], drain: bool = True) -> PortalRu
         if drain:
             r.drain()
     if getattr(r, "leaked_threads", None):
-        r.mon.append(f"helper threads left hanging at the end of the case: {r.leaked_threads}")
+        r.mon.append(f"caller threads never got an answer and are left hanging at the end of the history: {r.leaked_threads}")
     return r.slim()
 
 
@@ -1062,7 +1085,7 @@ def random_case(rng: random.Random, nsteps: int, prefix: list[int] | None = None
         r.scripted_len = len(r.ops)
         r.drain()
     if getattr(r, "leaked_threads", None):
-        r.mon.append(f"helper threads left hanging at the end of the case: {r.leaked_threads}")
+        r.mon.append(f"caller threads never got an answer and are left hanging at the end of the history: {r.leaked_threads}")
     return r.slim()
 
 
@@ -1153,7 +1176,7 @@ def exhaustive_cases(ncalls: int, depth: int, kinds=(KCORO,), budget: int = 1000
             nxt = [] if leaf else [v for e in r.enabled() for v in variants(r, e)]
             r.drain()
         if getattr(r, "leaked_threads", None):
-            r.mon.append(f"helper threads left hanging at the end of the case: {r.leaked_threads}")
+            r.mon.append(f"caller threads never got an answer and are left hanging at the end of the history: {r.leaked_threads}")
         r.slim()
         if leaf or not nxt or r.mon:
             results.append(r)
@@ -1485,7 +1508,25 @@ def run_e2e(tier: str, rng: random.Random):
         import uvloop  # noqa: F401
     except Exception:  # noqa: BLE001
         backends = backends[:1]
+    directed = {"caller_kinds": e2e_caller_kinds}
+    for f in sorted((core.VERIF / "corpus" / "C15").glob("e2e_*.json")):
+        spec = json.loads(f.read_text())
+        fn = directed.get(spec.get("e2e_scenario"))
+        if fn is None:
+            continue
+        for name, opts in backends:
+            if name in spec.get("backends", [name]):
+                mon, desc, flags = fn(opts, f"{name}-corpus-{f.stem}")
+                desc["backend"] = name
+                desc["corpus"] = f.name
+                results.append((mon, desc, flags))
     for name, opts in backends:
+        for i in range(2 if tier == "quick" else 10):
+            mon, desc, flags = e2e_caller_kinds(opts, f"{name}-kinds-{i}")
+            desc["backend"] = name
+            results.append((mon, desc, flags))
+            if mon:
+                break
         for i in range(max(4, n // 10)):
             if sum(1 for m, _, _ in results if m) >= 3:
                 break
@@ -1504,6 +1545,156 @@ def run_e2e(tier: str, rng: random.Random):
             desc["backend"] = name
             results.append((mon, desc, flags))
     return results, [b[0] for b in backends]
+
+
+def e2e_caller_kinds(backend_opts: dict, label: str):
+    """Caller kinds, end to end.  The same set of calls (call with a sync callable, call with a coroutine,
+    start_task_soon, start_task incl. the code before started()) is issued from
+      plain             a plain foreign thread,
+      own-worker        an AnyIO worker thread (to_thread.run_sync) of the PORTAL's own event loop,
+      other-worker      an AnyIO worker thread of ANOTHER event loop (an outer anyio.run) using a portal that a third
+                        thread created,
+      other-worker-own  an AnyIO worker thread of another event loop that opens start_blocking_portal() itself and leaves it.
+    Monitors: threading.get_ident() seen by every callable (every segment of it) is the ident of the portal's event-loop
+    thread; every caller gets its value; leaving the portal's context terminates.  Returns (mon, desc, flags)."""
+    import anyio
+    from anyio import to_thread
+    from anyio.from_thread import start_blocking_portal
+
+    mon: list[str] = []
+    flags: set[str] = set()
+    seen: list[tuple] = []           # (caller kind, what, ident seen by the callable, ident of the portal's loop thread)
+    lock = threading.Lock()
+
+    def ident_of(name):
+        return next((t.ident for t in threading.enumerate() if t.name == name), None)
+
+    def use_portal(portal, kind: str, pname: str):
+        def note(what):
+            with lock:
+                seen.append((kind, what, get_ident(), ident_of(pname)))
+
+        def sync_fn():
+            note("call(sync callable)")
+            return 1
+
+        async def coro_fn():
+            note("call(coroutine), first segment")
+            await anyio.sleep(0.001)
+            note("call(coroutine), after a checkpoint")
+            return 2
+
+        async def soon_fn():
+            note("start_task_soon, first segment")
+            await anyio.sleep(0.001)
+            note("start_task_soon, after a checkpoint")
+            return 3
+
+        async def start_fn(*, task_status):
+            note("start_task, code before started()")
+            task_status.started(4)
+            await anyio.sleep(0.001)
+            note("start_task, after started()")
+            return 5
+
+        try:
+            got = [portal.call(sync_fn), portal.call(coro_fn), portal.start_task_soon(soon_fn).result(E2E_WAIT)]
+            fut, sv = portal.start_task(start_fn)
+            got += [sv, fut.result(E2E_WAIT)]
+            if got != [1, 2, 3, 4, 5]:
+                mon.append(f"caller kind {kind}: callers got {got} instead of [1, 2, 3, 4, 5]")
+            else:
+                flags.add("kind_" + kind)
+        except BaseException as e:  # noqa: BLE001
+            mon.append(f"caller kind {kind}: a call through a running portal failed with {e!r}")
+
+    pa = f"c15-portalA-{label}"
+    pb = f"c15-portalB-{label}"
+    st = {"portal": None, "a_left": False, "b_left": False}
+    ready, done = threading.Event(), threading.Event()
+
+    def owner_a():                                   # a plain thread creates portal A
+        try:
+            with start_blocking_portal("asyncio", backend_opts, name=pa) as portal:
+                st["portal"] = portal
+                ready.set()
+                done.wait(E2E_WAIT * 4)
+            st["a_left"] = True
+        except BaseException as e:  # noqa: BLE001
+            mon.append(f"start_blocking_portal() (plain owner) raised {e!r}")
+        finally:
+            ready.set()
+
+    ta = threading.Thread(target=owner_a, name=f"c15-kinds-ownerA-{label}", daemon=True)
+    ta.start()
+    if not ready.wait(E2E_WAIT) or st["portal"] is None:
+        return mon + ["start_blocking_portal did not come up"], {"label": label}, flags
+    portal_a = st["portal"]
+
+    def bounded(fn, what, name):
+        t = threading.Thread(target=fn, name=name, daemon=True)
+        t.start()
+        t.join(E2E_WAIT * 2)
+        if t.is_alive():
+            mon.append(f"{what} does not terminate")
+        return not t.is_alive()
+
+    # plain
+    bounded(lambda: use_portal(portal_a, "plain", pa), "a plain caller thread", f"c15-kinds-plain-{label}")
+
+    # worker thread of the portal's own loop
+    async def own_worker():
+        await to_thread.run_sync(use_portal, portal_a, "own-worker", pa)
+
+    bounded(lambda: portal_a.call(own_worker), "a caller in a worker thread of the portal's own loop",
+            f"c15-kinds-own-{label}")
+
+    # worker thread of another loop, portal created by yet another thread
+    def outer_other():
+        async def main():
+            await to_thread.run_sync(use_portal, portal_a, "other-worker", pa, abandon_on_cancel=True)
+        anyio.run(main)
+
+    bounded(outer_other, "a caller in a worker thread of ANOTHER event loop (anyio.run)", f"c15-kinds-other-{label}")
+    done.set()
+    ta.join(E2E_WAIT)
+    if ta.is_alive() or not st["a_left"]:
+        mon.append("leaving start_blocking_portal() (plain owner) does not terminate after calls from worker threads")
+
+    # worker thread of another loop opens and leaves its own portal
+    def outer_own():
+        def blocking():
+            with start_blocking_portal("asyncio", backend_opts, name=pb) as portal:
+                use_portal(portal, "other-worker-own", pb)
+            st["b_left"] = True
+
+        async def main():
+            await to_thread.run_sync(blocking, abandon_on_cancel=True)
+        anyio.run(main)
+
+    if not bounded(outer_own, "a worker thread of another event loop that opens start_blocking_portal() and leaves it",
+                   f"c15-kinds-own-portal-{label}") or not st["b_left"]:
+        if not any("opens start_blocking_portal" in m for m in mon):
+            mon.append("leaving start_blocking_portal() from a worker thread of another event loop does not terminate")
+
+    # every segment of every callable ran in the portal's event-loop thread (looked up by the thread's name while the
+    # portal was alive)
+    with lock:
+        snapshot = list(seen)
+    reported = set()
+    wrong = []
+    for kind, what, ident, expect in snapshot:
+        if expect is None:
+            wrong.append(f"caller kind {kind}: the portal's event-loop thread could not be identified")
+            break
+        if ident != expect and kind not in reported:
+            reported.add(kind)
+            wrong.append(f"call issued from caller kind '{kind}': {what} ran in thread {ident}, not in the portal's "
+                         f"event-loop thread {expect} (the callable must run in the portal's event-loop thread)")
+    mon = wrong + mon
+    desc = {"label": label, "scenario": "caller kinds: plain / worker of the portal's loop / worker of another loop",
+            "segments_observed": len(snapshot), "replay_fn": "e2e_caller_kinds"}
+    return mon, desc, flags
 
 
 def e2e_two_phase_stop(rng: random.Random, backend_opts: dict, label: str):
@@ -1845,6 +2036,8 @@ def check(tier: str) -> int:
     runs: list[PortalRun] = []
     corpus_names = []
     for f in sorted((core.VERIF / "corpus" / "C15").glob("*.json")):
+        if f.name.startswith("e2e_"):
+            continue                               # directed end-to-end scenarios: run by run_e2e
         c = json.loads(f.read_text())
         runs.append(run_script(c["ncalls"], c["ops"]))
         corpus_names.append(f.name)
@@ -2057,7 +2250,7 @@ def check(tier: str) -> int:
                                       "future_cancel_before_first_step", "interrupt_swallowed", "land_after_stop_accepted"}):
         if not flags.get(need):
             rep.notes.append(f"generator self-check: predicate {need} never reached")
-    for need in ("cancelled_future_reported", "own_cancel_raise", "own_cancel_await", "own_cancel_native", "probe_before_stop", "two_phase_stop", "refused", "task_cancelled", "future_cancelled", "value", "exception", "started", "cancel_remaining",
+    for need in ("kind_plain", "kind_own-worker", "kind_other-worker", "kind_other-worker-own", "cancelled_future_reported", "own_cancel_raise", "own_cancel_await", "own_cancel_native", "probe_before_stop", "two_phase_stop", "refused", "task_cancelled", "future_cancelled", "value", "exception", "started", "cancel_remaining",
                  "finished_after_stop_requested"):
         if not e2e_flags.get(need):
             rep.notes.append(f"e2e generator self-check: predicate {need} never reached")
